@@ -793,6 +793,82 @@ theorem locate_interpolate_ls {len : Len} (hl : LenAx len) (cs : List Pt) (hs : 
     · rw [if_neg h1]
       exact key r (not_le.1 h0) (le_of_lt (not_le.1 h1))
 
+/-! ### the simplicity hypothesis is sharp -/
+
+private theorem exists_first {α : Type} (P : α → Prop) : ∀ l : List α, (∃ x ∈ l, P x) →
+    ∃ l1 x l2, l = l1 ++ x :: l2 ∧ P x ∧ ∀ y ∈ l1, ¬ P y
+  | [], h => by obtain ⟨x, hx, _⟩ := h; simp at hx
+  | a :: l, h => by
+    by_cases ha : P a
+    · exact ⟨[], a, l, rfl, ha, by simp⟩
+    · obtain ⟨x, hx, hpx⟩ := h
+      have hx' : x ∈ l := by
+        rcases List.mem_cons.1 hx with rfl | h'
+        · exact absurd hpx ha
+        · exact h'
+      obtain ⟨l1, y, l2, e, hy, hl1⟩ := exists_first P l ⟨x, hx', hpx⟩
+      refine ⟨a :: l1, y, l2, by rw [e]; rfl, hy, ?_⟩
+      intro z hz
+      rcases List.mem_cons.1 hz with rfl | h'
+      · exact ha
+      · exact hl1 z h'
+
+private theorem lineLocatePoint_range (a b p : Pt) :
+    0 ≤ lineLocatePoint a b p ∧ lineLocatePoint a b p ≤ 1 := by
+  unfold lineLocatePoint
+  simp only
+  split
+  · exact ⟨le_refl _, by norm_num⟩
+  · rw [clamp01_eq]
+    split
+    · exact ⟨le_refl _, by norm_num⟩
+    · split
+      · exact ⟨by norm_num, le_refl _⟩
+      · rename_i h0 h1
+        exact ⟨le_of_lt (not_le.1 h0), le_of_lt (not_le.1 h1)⟩
+
+/-- [T] where the line has passed through the interpolated point *before* (the point lies on a
+segment that ends before the one the walk stops on), `line_locate_point` reports that earlier
+passage: a strictly smaller fraction. So the round trip fails there, on any line. -/
+theorem locate_earlier_passage {len : Len} (hl : LenAx len) (cs : List Pt) (r : Rat)
+    (hL : 0 < lsLength len cs) (p : Pt) (pre : List (Pt × Pt)) (a b : Pt) (post : List (Pt × Pt))
+    (e : Interp.segs cs = pre ++ (a, b) :: post) (hlt : sumLen len pre < r * lsLength len cs)
+    (hz : ∃ s ∈ pre, segDistSq p s.1 s.2 = 0) :
+    lsLineLocatePoint len cs p < r := by
+  obtain ⟨pre1, s1, rest1, epre, hs1, hpos⟩ := exists_first (fun s => segDistSq p s.1 s.2 = 0) pre hz
+  obtain ⟨a1, b1⟩ := s1
+  have hpos' : ∀ s ∈ pre1, 0 < segDistSq p s.1 s.2 := fun s hs =>
+    lt_of_le_of_ne (segDistSq_nonneg p s.1 s.2) (Ne.symm (hpos s hs))
+  have e' : Interp.segs cs = pre1 ++ (a1, b1) :: (rest1 ++ (a, b) :: post) := by
+    rw [e, epre]; simp
+  obtain ⟨f0, f1⟩ := lineLocatePoint_range a1 b1 p
+  have hsum : sumLen len pre = sumLen len pre1 + (len a1 b1 + sumLen len rest1) := by
+    rw [epre, sumLen_append]; rfl
+  have hrest := sumLen_nonneg hl rest1
+  have hl1 := hl.nonneg a1 b1
+  unfold lsLineLocatePoint
+  simp only
+  rw [if_neg (ne_of_gt hL), e',
+    locateGo_first_hit len p a1 b1 _ hs1 pre1 0 none 0 (by intro c hc; cases hc) hpos',
+    div_lt_iff₀ hL]
+  nlinarith
+
+/-- [T] for `0 < r ≤ 1` on a line of positive length the round trip holds **exactly** where the
+point has not been passed before: `line_locate_point(point_at_ratio_from_start(r)) = r ⇔
+EarlierApart`. -/
+theorem locate_interpolate_ls_iff {len : Len} (hl : LenAx len) (cs : List Pt) (r : Rat)
+    (h0 : 0 < r) (h1 : r ≤ 1) (hL : 0 < lsLength len cs) (p : Pt)
+    (hp : lsPointAtRatioFromStart len cs r = some p) :
+    lsLineLocatePoint len cs p = r ↔ EarlierApart len cs (r * lsLength len cs) p := by
+  constructor
+  · intro heq pre a b post e hlt _ s hs
+    by_contra hnot
+    have hz : segDistSq p s.1 s.2 = 0 := le_antisymm (not_lt.1 hnot) (segDistSq_nonneg p s.1 s.2)
+    have := locate_earlier_passage hl cs r hL p pre a b post e hlt ⟨s, hs, hz⟩
+    rw [heq] at this
+    exact lt_irrefl _ this
+  · exact locate_interpolate_ls_pointwise hl cs r h0 h1 hL p hp
+
 /-! ### every interpolated point lies on the line -/
 
 /-- [T] an empty line string has no interpolated point (all four forms). -/
@@ -1093,5 +1169,18 @@ example : geomRings (.multiLineString ([exPath, []].map (fun l => densifyLS l1 l
 example : List.Forall₂ (fun r r' => r.Sublist r' ∧ r'.head? = r.head? ∧ r'.getLast? = r.getLast?)
     (geomRings (.polygon exPoly)) (geomRings (.polygon (densifyPoly l1 exPoly 2))) :=
   densify_geom_vertices l1 2 (.polygon exPoly) _ exPoly_closed rfl
+
+/-- a back-tracking path: the point at `r = 3/4` was passed at `1/4`, which is what locate reports -/
+example : lsLineLocatePoint l1 [⟨0, 0⟩, ⟨2, 0⟩, ⟨0, 0⟩] ⟨1, 0⟩ < 3 / 4 :=
+  locate_earlier_passage l1_ax _ _ (by norm_num [lsLength, Interp.segs, sumLen, l1]) _
+    [(⟨0, 0⟩, ⟨2, 0⟩)] ⟨2, 0⟩ ⟨0, 0⟩ [] rfl (by norm_num [lsLength, Interp.segs, sumLen, l1])
+    ⟨_, List.mem_singleton.2 rfl, by norm_num [segDistSq]⟩
+
+example : lsLineLocatePoint l1 [⟨0, 0⟩, ⟨2, 0⟩, ⟨2, 3⟩] ⟨2, 0⟩ = 2 / 5 ↔
+    EarlierApart l1 [⟨0, 0⟩, ⟨2, 0⟩, ⟨2, 3⟩] (2 / 5 * lsLength l1 [⟨0, 0⟩, ⟨2, 0⟩, ⟨2, 3⟩]) ⟨2, 0⟩ :=
+  locate_interpolate_ls_iff l1_ax _ (2 / 5) (by norm_num) (by norm_num)
+    (by norm_num [lsLength, Interp.segs, sumLen, l1]) _
+    (by norm_num [lsPointAtRatioFromStart, lsPointAtDistanceFromStart, lsLength, Interp.segs, sumLen, l1,
+      walk, pointAtDistanceBetween])
 
 end Geo.Proofs.C15
